@@ -506,4 +506,122 @@ theorem genStmt_ok (ctx : Ctx) (s : AStmt) :
     have e2 : Eff gs1 gs' := genStmt_eff ctx (.seq ss) gs1 cs gs' (by rw [genStmt_seq]; exact h2)
     exact ((ih1 _ _ _ h1 ho).mono e2.2.1).append (ih2 _ _ _ h2 (by rw [e1.1]; have := e1.2.1; omega))
 
+/-! ### Procedures and the whole program -/
+
+/-- `frameOf` of `Lower.lean`, stated here on the generator output. -/
+def frameOf' (out : CGOut) (i : Nat) : FrameInfo := out.frames.getD i { size := 0, exitLabel := "" }
+
+
+/-- The intermediate code of one procedure. -/
+def segCode (c : Ctx) (b : Code) : Code := [.prologue c.scope] ++ b ++ [.epilogue c.scope]
+
+theorem cgProc_spec (i : Nat) (p : AProc) (st st' : CGState) (h : cgProc i p st = .ok st') :
+    ∃ ctx body S, ctx.frame = i ∧ ctx.scope = p.name ∧ st'.instrs = st.instrs ++ segCode ctx body ∧
+      st'.frames = st.frames ++ [{ size := S, exitLabel := ctx.exitLabel }] ∧ CodeOk ctx S body ∧
+      st'.globalsOffset = st.globalsOffset := by
+  unfold cgProc at h
+  simp only [bind, Except.bind] at h
+  split at h
+  · simp at h
+  · split at h
+    · simp at h
+    · rename_i v2 hloc
+      obtain ⟨tbl2, nlocals⟩ := v2
+      simp only at h
+      split at h
+      · simp at h
+      · rename_i v3 hgen
+        obtain ⟨body, gs2⟩ := v3
+        simp only [pure, Except.pure, Except.ok.injEq] at h
+        subst h
+        refine ⟨{ tbl := tbl2, scope := p.name, frame := i, exitLabel := (takeLabel st.gs).1 }, body, gs2.size, rfl, rfl, ?_, rfl, ?_, rfl⟩
+        · simp [segCode, List.append_assoc]
+        · have hg : genStmt { tbl := tbl2, scope := p.name, frame := i, exitLabel := (takeLabel st.gs).1 } p.body
+              { (takeLabel st.gs).2 with offset := nlocals, size := nlocals } = .ok (body, gs2) := hgen
+          exact genStmt_ok _ _ _ _ _ hg (Nat.le_refl _)
+
+theorem cgProcs_spec : ∀ (ps : List AProc) (i : Nat) (st st' : CGState), cgProcs ps i st = .ok st' →
+    st.frames.length = i →
+    ∃ segs : List (Ctx × Code), st'.instrs = st.instrs ++ segs.flatMap (fun s => segCode s.1 s.2) ∧
+      (∃ fs, st'.frames = st.frames ++ fs) ∧ st'.globalsOffset = st.globalsOffset ∧
+      ∀ s ∈ segs, CodeOk s.1 (st'.frames.getD s.1.frame { size := 0, exitLabel := "" }).size s.2 := by
+  intro ps
+  induction ps with
+  | nil =>
+    intro i st st' h _
+    simp only [cgProcs, pure, Except.pure, Except.ok.injEq] at h
+    subst h
+    exact ⟨[], by simp, ⟨[], by simp⟩, rfl, fun s hs => by simp at hs⟩
+  | cons p ps ih =>
+    intro i st st' h hlen
+    unfold cgProcs at h
+    simp only [bind, Except.bind] at h
+    split at h
+    · simp at h
+    · rename_i st1 h1
+      obtain ⟨ctx, body, S, hfr, hsc, hin, hframes, hok, hgo⟩ := cgProc_spec i p st st1 h1
+      obtain ⟨segs, hin2, ⟨fs, hfs⟩, hgo2, hall⟩ := ih (i + 1) st1 st' h (by rw [hframes]; simp [hlen])
+      refine ⟨(ctx, body) :: segs, ?_, ⟨{ size := S, exitLabel := ctx.exitLabel } :: fs, by rw [hfs, hframes]; simp⟩, by rw [hgo2, hgo], ?_⟩
+      · rw [hin2, hin]; simp [List.append_assoc]
+      · intro s hs
+        rcases List.mem_cons.mp hs with rfl | hs
+        · simp only
+          have : st'.frames.getD ctx.frame { size := 0, exitLabel := "" } = { size := S, exitLabel := ctx.exitLabel } := by
+            rw [hfs, hframes, hfr]
+            simp [List.getD, hlen.symm]
+          rw [this]
+          exact hok
+        · exact hall s hs
+
+theorem cgGlobals_spec : ∀ (ds : List ADecl) (st st' : CGState), cgGlobals ds st = .ok st' →
+    st'.instrs = st.instrs ∧ st'.frames = st.frames := by
+  intro ds
+  induction ds with
+  | nil =>
+    intro st st' h
+    simp only [cgGlobals, pure, Except.pure, Except.ok.injEq] at h
+    subst h
+    exact ⟨rfl, rfl⟩
+  | cons d ds ih =>
+    intro st st' h
+    unfold cgGlobals at h
+    cases d with
+    | val n e => exact ih _ _ h
+    | var n =>
+      simp only [bind, Except.bind] at h
+      split at h
+      · simp at h
+      · obtain ⟨h1, h2⟩ := ih _ _ h
+        exact ⟨h1, h2⟩
+    | array n e =>
+      simp only [bind, Except.bind] at h
+      split at h
+      · simp at h
+      · split at h
+        · simp at h
+        · obtain ⟨h1, h2⟩ := ih _ _ h
+          exact ⟨h1, h2⟩
+
+/-- **`codeGen`**: the intermediate code is the start-up stub followed by one segment per procedure;
+    in every segment all frame-relative accesses are temporaries below the final frame size of
+    that procedure, or symbol slots. -/
+theorem codeGen_ok (tbl : SymTab) (A : AProgram) (cg : CGOut) (h : codeGen tbl A = .ok cg) :
+    ∃ segs : List (Ctx × Code), cg.instrs = startStub ++ segs.flatMap (fun s => segCode s.1 s.2) ∧
+      ∀ s ∈ segs, CodeOk s.1 (frameOf' cg s.1.frame).size s.2 := by
+  unfold codeGen at h
+  simp only [bind, Except.bind] at h
+  split at h
+  · simp at h
+  · rename_i st1 h1
+    split at h
+    · simp at h
+    · rename_i st2 h2
+      simp only [pure, Except.pure, Except.ok.injEq] at h
+      subst h
+      obtain ⟨hi1, hf1⟩ := cgGlobals_spec _ _ _ h1
+      obtain ⟨segs, hin, _, _, hall⟩ := cgProcs_spec _ 0 st1 st2 h2 (by rw [hf1]; rfl)
+      refine ⟨segs, ?_, hall⟩
+      show st2.instrs = _
+      rw [hin, hi1]
+
 end Hex.Xcmp
